@@ -101,6 +101,29 @@ func setterField(p *core.Prog, rel, tname, method string, idx int) (core.Field, 
 			}
 		}
 	}
+	// the setter hands the parameter to a private helper that stores it (several setters sharing
+	// one: SetOwnedResources and SetReset both call setOwnership(resources, access))
+	for _, c := range core.Calls(m) {
+		cal := c.Common().StaticCallee()
+		if cal == nil || len(cal.Blocks) == 0 || cal.Pkg != m.Pkg || cal.Object() == nil || cal.Object().Exported() {
+			continue
+		}
+		for i, a := range c.Common().Args {
+			if core.Strip(a) != ssa.Value(prm) || i >= len(cal.Params) {
+				continue
+			}
+			hp := cal.Params[i]
+			for _, b := range cal.Blocks {
+				for _, in := range b.Instrs {
+					if st, ok := in.(*ssa.Store); ok && (core.Strip(st.Val) == ssa.Value(hp) || builtFromParam(st.Val, hp, 0)) {
+						if f, ok := core.FieldOf(st.Addr); ok {
+							return f, true
+						}
+					}
+				}
+			}
+		}
+	}
 	return core.Field{}, false
 }
 
